@@ -249,6 +249,104 @@ pub fn weak_from_zero(ctl: &mut Ctl, res: usize, stall: bool) {
     done(ctl);
 }
 
+/// Mutant `WeakTokenFromStaleLoad`: the last weak decrement lands between the load and the fetch_add of a
+/// concurrent WeakSnapshot::counted(); the increment must notice that it started from zero.
+pub fn weak_inc_vs_last_dec(ctl: &mut Ctl, res: usize, at: u32) {
+    ctl.advance_to_residue(res);
+    ctl.reset(&format!("dir:weak_inc_vs_last_dec:{}:{}", res, at));
+    ctl.run(0, Op::New { dst: 0, next: RcArg::Null(0) });
+    ctl.run(0, Op::Downgrade { src: 0, dst: 0 });
+    ctl.run(0, Op::Give { kind: 'w', slot: 0, to: 1, to_slot: 0 }); // the only explicit weak owner: t1
+    ctl.run(1, Op::Recv);
+    ctl.run(0, Op::Drop { slot: 0 }); // strong -> 0
+    adv(ctl, 3);
+    ctl.run(0, Op::Collect); // destructed: the implicit share is gone, weak count = 1
+    ctl.run(0, Op::Pin);
+    ctl.run(1, Op::Pin);
+    ctl.run(1, Op::WStore { loc: WLoc::Cell(0), val: RcArg::Slot(0) }); // park it in a cell so that t0 can see it
+    ctl.run(0, Op::WLoad { loc: WLoc::Cell(0), dst: 0 });
+    ctl.start(0, Op::WCounted { ws: 0, dst: 0 });
+    ctl.run_to(0, at); // count loaded (1), increment not yet published
+    ctl.run(1, Op::WStore { loc: WLoc::Cell(0), val: RcArg::Null(0) }); // 1 -> 0, try_dealloc deferred
+    ctl.finish(0); // increment from zero
+    ctl.run(0, Op::Unpin);
+    ctl.run(1, Op::Unpin);
+    for _ in 0..3 {
+        adv(ctl, 3);
+        ctl.run(1, Op::Collect);
+    }
+    ctl.run(0, Op::WClone { src: 0, dst: 1 }); // the Weak must still refer to an allocated block
+    done(ctl);
+}
+
+/// Mutant `DisposeFreesLastShare`: a WeakSnapshot loaded in a critical section that is active while
+/// the object is destructed keeps the block allocated until that critical section ends.
+pub fn wsnap_vs_dispose(ctl: &mut Ctl, res: usize, k: usize) {
+    ctl.advance_to_residue(res);
+    ctl.reset(&format!("dir:wsnap_vs_dispose:{}:{}", res, k));
+    ctl.run(0, Op::New { dst: 0, next: RcArg::Null(0) });
+    ctl.run(0, Op::Downgrade { src: 0, dst: 0 });
+    ctl.run(0, Op::Pin);
+    ctl.run(0, Op::WStore { loc: WLoc::Cell(0), val: RcArg::Slot(0) });
+    ctl.run(0, Op::Unpin);
+    ctl.run(0, Op::Give { kind: 'r', slot: 0, to: 1, to_slot: 0 });
+    ctl.run(1, Op::Recv);
+    ctl.run(1, Op::Drop { slot: 0 }); // strong -> 0, try_destruct sealed now
+    adv(ctl, k);
+    ctl.run(0, Op::Pin);
+    ctl.run(0, Op::WLoad { loc: WLoc::Cell(0), dst: 0 }); // WeakSnapshot under t0's guard
+    ctl.run(1, Op::Pin);
+    ctl.run(1, Op::WStore { loc: WLoc::Cell(0), val: RcArg::Null(0) }); // explicit share released: only the implicit one is left
+    ctl.run(1, Op::Unpin);
+    adv(ctl, 3);
+    ctl.run(1, Op::Collect); // try_destruct may run now
+    ctl.run(0, Op::WCounted { ws: 0, dst: 0 }); // touches the count word of the block
+    ctl.run(0, Op::Unpin);
+    done(ctl);
+}
+
+/// Mutant `TDeallocKeepsToken`: weak count raised from zero again after the object died; the token must
+/// be given back so that the block is freed once the last Weak is gone.
+pub fn weak_resurrect_after_death(ctl: &mut Ctl, res: usize) {
+    ctl.advance_to_residue(res);
+    ctl.reset(&format!("dir:weak_resurrect_after_death:{}", res));
+    ctl.run(0, Op::New { dst: 0, next: RcArg::Null(0) });
+    ctl.run(0, Op::Downgrade { src: 0, dst: 0 });
+    ctl.run(0, Op::Pin);
+    ctl.run(0, Op::WStore { loc: WLoc::Cell(0), val: RcArg::Slot(0) });
+    ctl.run(0, Op::Unpin);
+    ctl.run(0, Op::Drop { slot: 0 });
+    adv(ctl, 3);
+    ctl.run(1, Op::Collect); // dead, weak count 1 (the cell)
+    ctl.run(0, Op::Pin);
+    ctl.run(0, Op::WLoad { loc: WLoc::Cell(0), dst: 0 });
+    ctl.run(0, Op::WStore { loc: WLoc::Cell(0), val: RcArg::Null(0) }); // 1 -> 0, try_dealloc deferred
+    ctl.run(0, Op::WCounted { ws: 0, dst: 0 }); // 0 -> token + share
+    ctl.run(0, Op::Unpin);
+    adv(ctl, 3);
+    ctl.run(1, Op::Collect); // try_dealloc gives the token back
+    ctl.run(0, Op::DropWeak { slot: 0 });
+    done(ctl);
+}
+
+/// Mutant `CascadeRereadsCount`: a child shared by two parents whose cascades run on two threads.
+pub fn dag_two_cascades(ctl: &mut Ctl, res: usize, pause_after_cas: bool) {
+    ctl.advance_to_residue(res);
+    ctl.reset(&format!("dir:dag_two_cascades:{}:{}", res, pause_after_cas));
+    crate::rcrun::build_template(ctl, 4); // P1 -> S <- P2 ; t0: Rc(P1) slot 2 ; t1: Rc(P2) slot 0 ; wcell0 -> S
+    ctl.run(0, Op::Drop { slot: 2 });
+    ctl.run(1, Op::Drop { slot: 0 });
+    adv(ctl, 4);
+    ctl.start(0, Op::Collect); // pops the first parent
+    ctl.run_to(0, site::U_DG_CHILD_CAS);
+    if pause_after_cas {
+        ctl.step(0); // S: 2 -> 1 published
+    }
+    ctl.run(1, Op::Collect); // the other parent: S reaches zero here (or in t0's CAS)
+    ctl.finish(0);
+    done(ctl);
+}
+
 /// C08: timestamp-only differences never fail a CAS; failure returns `desired`.
 pub fn cas_across_epochs(ctl: &mut Ctl, res: usize, gap: usize, weak: bool) {
     ctl.advance_to_residue(res);
@@ -361,6 +459,18 @@ pub fn run_family(ctl: &mut Ctl, fam: &str) -> usize {
         if all || fam == "c03" || fam == "c04" {
             weak_from_zero(ctl, res, false);
             weak_from_zero(ctl, res, true);
+            weak_resurrect_after_death(ctl, res);
+            n += 3;
+            for at in [site::U_INCW_FAA1, site::U_INCW_CAS] {
+                weak_inc_vs_last_dec(ctl, res, at);
+                n += 1;
+            }
+            for k in 0..4 {
+                wsnap_vs_dispose(ctl, res, k);
+                n += 1;
+            }
+            dag_two_cascades(ctl, res, false);
+            dag_two_cascades(ctl, res, true);
             n += 2;
         }
         if all || fam == "c08" {
